@@ -226,7 +226,9 @@ func (e *DocumentError) pointerToTheErrorCharacter() string {
 		return "^"
 	}
 	begin := e.lineBeginning()
-	spaces := content[begin:].CountSpacesFromLeft()
+	// The blanks trimmed from the shown line, not those of the lines after it: an
+	// all-blank line is shown as it is.
+	spaces := content[begin:e.lineEnd()].CountSpacesFromLeft()
 
 	i := int(e.index) - int(begin) - spaces
 	if i < 0 {
